@@ -850,6 +850,9 @@ func (w *World) exec(op *Op) (done bool) {
 			return true
 		}
 		if !w.call("Write", true, func() error { return c.Write() }) {
+			if w.file != nil && len(w.file.B) > 0 {
+				w.junkEnd = int64(len(w.file.B)) // a failed Write leaves bytes that belong to no flush, like a successful one
+			}
 			return false
 		}
 		w.ev["coll_write"]++
